@@ -1,1 +1,407 @@
--- C14: property theorems (to be filled in)
+/-
+C14 — property theorems.
+
+Everything is quantified over *all* metadata lists, blocks, lines (any characters, any lengths,
+duplicates, conflicts) and over all contexts; the per-template facts are `decide`d by the kernel
+on the constants that the translator regenerates from the repository on every run
+(`FaxVerif.Generated.C14`).  Helper lemmas live in `Proofs.lean`.
+-/
+import FaxVerif.C14.Proofs
+import FaxVerif.Generated.C14Templates
+namespace FaxVerif.C14
+open FaxVerif.Tmpl
+
+/-! ## 1. Rendering (every template, every layout, every context) -/
+
+/-- **C14.render_layout** — a template that has a layout renders, in every context, as
+`static₀ ++ slot₁ ++ static₁ ++ … ++ slotₖ ++ staticₖ` where `slotᵢ` is the concatenation, in list
+order, of `pre ++ line ++ post` for the lines of its variable.  Substituted values are never
+inspected: the statement holds for lines containing `{{`, `{%`, `#}`, quotes, newlines, anything. -/
+theorem render_layout (t : Template) (L : Layout) (h : flatten t = some L) (info : Info) :
+    render t info = renderLayout L info :=
+  render_flatten t L h info
+
+/-- **C14.verbatim** — every line of every slot's list occurs in the rendered text as a contiguous
+piece, unaltered, between the slot's fixed decorations. -/
+theorem verbatim (L : Layout) (info : Info) (s : Slot) (st : Str) (hs : (s, st) ∈ L.rest)
+    (l : Str) (hl : l ∈ info.getList s.xs) :
+    (s.pre ++ (l ++ s.post)) <:+: renderLayout L info := by
+  obtain ⟨A, B, hAB⟩ := List.append_of_mem hs
+  obtain ⟨a, b, hab⟩ := List.append_of_mem hl
+  rw [renderLayout_split L A B s st hAB info, hab, itemsText_split]
+  refine ⟨(L.head ++ renderRest info A) ++ itemsText s.pre s.post a,
+    itemsText s.pre s.post b ++ (st ++ renderRest info B), ?_⟩
+  simp [List.append_assoc]
+
+/-- **C14.order** — two lines of one list come out in the order of the list (and so do the lines
+of two blocks, and the lines inside a block: `fetch_order`). -/
+theorem order (L : Layout) (info : Info) (s : Slot) (st : Str) (hs : (s, st) ∈ L.rest)
+    (a : List Str) (l₁ : Str) (b : List Str) (l₂ : Str) (c : List Str)
+    (hl : info.getList s.xs = a ++ l₁ :: (b ++ l₂ :: c)) :
+    ∃ P Q R, renderLayout L info = P ++ (s.pre ++ (l₁ ++ s.post)) ++ Q ++ (s.pre ++ (l₂ ++ s.post)) ++ R := by
+  obtain ⟨A, B, hAB⟩ := List.append_of_mem hs
+  rw [renderLayout_split L A B s st hAB info, hl, itemsText_split, itemsText_split]
+  exact ⟨(L.head ++ renderRest info A) ++ itemsText s.pre s.post a, itemsText s.pre s.post b,
+    itemsText s.pre s.post c ++ (st ++ renderRest info B), by simp [List.append_assoc]⟩
+
+/-- **C14.once** (conservation) — the rendered text consists of the template's own text plus,
+for each slot, each line of its list exactly once with its decorations: for every character `c`
+the number of its occurrences adds up exactly.  Nothing is dropped, nothing is repeated. -/
+theorem once (L : Layout) (info : Info) (c : Char) :
+    (renderLayout L info).count c = L.skeleton.count c + slotsCount c info L.rest ∧
+    ∀ s : Slot, (itemsText s.pre s.post (info.getList s.xs)).count c =
+      (info.getList s.xs).length * (s.pre.count c + s.post.count c) + ((info.getList s.xs).map (List.count c)).sum :=
+  ⟨count_renderLayout c info L, fun s => count_itemsText c s.pre s.post _⟩
+
+/-! ## 2. The generated templates are at their documented places -/
+
+theorem matchDocs_mem : ∀ (ds : List SlotDoc) (cs : List Ctx), matchDocs ds cs = true →
+    ∀ d ∈ ds, ∃ c ∈ cs, slotOk d c = true := by
+  intro ds
+  induction ds with
+  | nil => intro cs _ d hd; simp at hd
+  | cons d0 ds ih =>
+    intro cs h d hd
+    cases cs with
+    | nil => simp [matchDocs] at h
+    | cons c cs =>
+      simp only [matchDocs, Bool.and_eq_true] at h
+      rcases List.mem_cons.1 hd with rfl | hd
+      · exact ⟨c, by simp, h.1⟩
+      · obtain ⟨c', hc', hok⟩ := ih cs h.2 d hd
+        exact ⟨c', by simp [hc'], hok⟩
+
+/-- where a slot of `annot L` sits in `L` and in the skeleton -/
+theorem annotAux_mem (c : Ctx) : ∀ (R : List (Slot × Str)) (before sBefore : Str),
+    c ∈ annotAux before sBefore R →
+    ∃ A B st, R = A ++ (c.slot, st) :: B ∧ c.before = before ++ Layout.skeletonRest A ∧
+      c.after = st ++ Layout.skeletonRest B := by
+  intro R
+  induction R with
+  | nil => intro _ _ h; simp [annotAux] at h
+  | cons a R ih =>
+    obtain ⟨s, st⟩ := a
+    intro before sBefore h
+    simp only [annotAux, List.mem_cons] at h
+    rcases h with rfl | h
+    · exact ⟨[], R, st, by simp, by simp [Layout.skeletonRest], rfl⟩
+    · obtain ⟨A, B, st', hR, hb, ha⟩ := ih _ _ h
+      refine ⟨(s, st) :: A, B, st', by simp [hR], ?_, ha⟩
+      simp [hb, Layout.skeletonRest, List.append_assoc]
+
+theorem docsOk_mem (files : List (String × Template)) (docs : List FileDoc) (h : docsOk files docs = true)
+    (d : FileDoc) (hd : d ∈ docs) :
+    ∃ t L, lookup d.file files = some t ∧ flatten t = some L ∧ matchDocs d.slots (annot L) = true := by
+  unfold docsOk at h
+  rw [List.all_eq_true] at h
+  have := h d hd
+  cases ht : lookup d.file files with
+  | none => simp [ht] at this
+  | some t =>
+    cases hL : flatten t with
+    | none => simp [ht, hL] at this
+    | some L => exact ⟨t, L, rfl, hL, by simpa [ht, hL] using this⟩
+
+/-- **C14.render_shape** (generic form) — if a package's templates pass the input-independent
+check `docsOk` (each documented file has a layout whose slots are the documented ones, with the
+documented decorations and separations, at the documented places of the skeleton), then in
+*every* context every rendered file satisfies the file-level property. -/
+theorem render_shape (files : List (String × Template)) (docs : List FileDoc) (h : docsOk files docs = true)
+    (info : Info) : ∀ d ∈ docs, SpecFileAt d info (witOf files) (renderFiles files info) := by
+  intro d hd
+  obtain ⟨t, L, ht, hL, hm⟩ := docsOk_mem files docs h d hd
+  unfold SpecFileAt
+  rw [lookup_witOf files d.file t L ht hL, lookup_renderFiles, ht]
+  exact ⟨render_flatten t L hL info, matchDocs_filter (present info) d.slots (annot L) hm⟩
+
+/-- **C14.region** — under `docsOk`, every documented slot of every documented file has a place in
+its template such that, in every context, the rendered file is
+`P ++ (all lines of the slot's variable, each once, in order, decorated) ++ Q` with `P`, `Q` the
+rendering of the rest of the layout, the decorations/separation are the documented ones
+(`slotOk`) and the position in the skeleton (`before`/`after`) is the documented region. -/
+theorem region (files : List (String × Template)) (docs : List FileDoc) (h : docsOk files docs = true)
+    (d : FileDoc) (hd : d ∈ docs) (sd : SlotDoc) (hsd : sd ∈ d.slots) :
+    ∃ t L c A B st, lookup d.file files = some t ∧ flatten t = some L ∧
+      L.rest = A ++ (c.slot, st) :: B ∧ slotOk sd c = true ∧
+      c.before = L.head ++ Layout.skeletonRest A ∧ c.after = st ++ Layout.skeletonRest B ∧
+      regionOk sd.region (L.head ++ Layout.skeletonRest A) (st ++ Layout.skeletonRest B) = true ∧
+      ∀ info, render t info =
+        (L.head ++ renderRest info A) ++ itemsText c.slot.pre c.slot.post (info.getList sd.xs) ++
+          (st ++ renderRest info B) := by
+  obtain ⟨t, L, ht, hL, hm⟩ := docsOk_mem files docs h d hd
+  obtain ⟨c, hc, hok⟩ := matchDocs_mem d.slots (annot L) hm sd hsd
+  obtain ⟨A, B, st, hR, hb, ha⟩ := annotAux_mem c L.rest L.head L.head hc
+  refine ⟨t, L, c, A, B, st, ht, hL, hR, hok, hb, ha, ?_, ?_⟩
+  · have := hok
+    unfold slotOk at this
+    simp only [Bool.and_eq_true] at this
+    rw [← hb, ← ha]; exact this.2
+  · intro info
+    rw [render_flatten t L hL info, renderLayout_split L A B c.slot st hR info, slotOk_xs sd c hok]
+
+/-! ### the three backends, on the constants regenerated from the repository -/
+
+open FaxVerif.Generated.C14
+
+/-- the ATLAS templates (query.cxx, query.h, package_CMakeLists.txt, ATestRun_eljob.py) as they
+are in the repository now: layouts exist, slots/decorations/regions are the documented ones -/
+theorem atlas_docs_ok : docsOk atlasFiles atlasDocs = true := by decide +kernel
+
+/-- the CMS AOD `Analyzer.cc` -/
+theorem cms_aod_docs_ok : docsOk cms_aodFiles cmsDocs = true := by decide +kernel
+
+/-- the CMS miniAOD `Analyzer.cc` -/
+theorem cms_miniaod_docs_ok : docsOk cms_miniaodFiles cmsDocs = true := by decide +kernel
+
+/-- every file of every executor's file list has a layout: no directive outside the modelled
+subset, no directive left unrendered; the files without slots come out as their own text -/
+theorem all_templates_have_layouts :
+    (atlasFiles ++ cms_aodFiles ++ cms_miniaodFiles).all (fun nt => (flatten nt.2).isSome) = true := by
+  decide +kernel
+
+/-- the dataclass fields are exactly the documented ones, each with a documented ATLAS place that
+exists in `atlasDocs`, and with the template variable `expectedInfo` feeds -/
+theorem fields_documented :
+    injectFields = atlasFieldPlace.map (·.1) ∧ injectFields = fieldKey.map (·.1) ∧
+    (atlasFieldPlace.all fun p => fieldKey.contains (p.1, p.2.2) &&
+      atlasDocs.any fun d => d.file == p.2.1 && d.slots.any fun sd => sd.xs == p.2.2) = true ∧
+    (cmsFieldPlace.all fun p => fieldKey.contains (p.1, p.2.2) &&
+      cmsDocs.any fun d => d.file == p.2.1 && d.slots.any fun sd => sd.xs == p.2.2) = true := by
+  decide +kernel
+
+/-- **C14.render_shape_atlas** — query.cxx, query.h, package_CMakeLists.txt and ATestRun_eljob.py
+satisfy the file-level property in every context. -/
+theorem render_shape_atlas (info : Info) :
+    ∀ d ∈ atlasDocs, SpecFileAt d info (witOf atlasFiles) (renderFiles atlasFiles info) :=
+  render_shape atlasFiles atlasDocs atlas_docs_ok info
+
+/-- **C14.render_shape_cms_aod** -/
+theorem render_shape_cms_aod (info : Info) :
+    ∀ d ∈ cmsDocs, SpecFileAt d info (witOf cms_aodFiles) (renderFiles cms_aodFiles info) :=
+  render_shape cms_aodFiles cmsDocs cms_aod_docs_ok info
+
+/-- **C14.render_shape_cms_miniaod** -/
+theorem render_shape_cms_miniaod (info : Info) :
+    ∀ d ∈ cmsDocs, SpecFileAt d info (witOf cms_miniaodFiles) (renderFiles cms_miniaodFiles info) :=
+  render_shape cms_miniaodFiles cmsDocs cms_miniaod_docs_ok info
+
+/-! ## 3. Metadata: de-duplication, conflicts, unknown fields, concatenation order -/
+
+/-- **C14.dedup_conflict** — when `process_metadata` returns, the metadata was not bad and the
+blocks kept are the first occurrences, in order, of the blocks sent: a block repeated with
+identical content counts once. -/
+theorem dedup_conflict (fields : List String) (mds : List Md) (out : List Block)
+    (h : processMd fields mds [] = .ok out) :
+    out = effective fields mds ∧ ¬ Bad fields mds := by
+  have := (processMd_spec fields mds [] (by simp [ConflictB])).1 out (by simpa [firstOcc, firstOccAux] using h)
+  simp only [List.nil_append] at this
+  exact ⟨this.1, fun hb => hb.elim this.2.2 (fun hc => this.2.1 ((conflict_iff _ _).1 hc))⟩
+
+/-- **C14.refused_iff_bad** — the metadata is refused exactly when a dictionary has an unknown
+key or no name, or two blocks share a name with different content. -/
+theorem refused_iff_bad (fields : List String) (mds : List Md) :
+    (∃ e, processMd fields mds [] = .error e) ↔ Bad fields mds := by
+  have hs := processMd_spec fields mds [] (by simp [ConflictB])
+  simp only [List.nil_append, firstOcc, firstOccAux] at hs
+  constructor
+  · rintro ⟨e, he⟩
+    rcases hs.2 e he with hm | hc
+    · exact Or.inl hm
+    · exact Or.inr ((conflict_iff _ _).2 hc)
+  · intro hb
+    cases hp : processMd fields mds [] with
+    | error e => exact ⟨e, rfl⟩
+    | ok out =>
+      exfalso
+      have := hs.1 out hp
+      exact hb.elim this.2.2 (fun hc => this.2.1 ((conflict_iff _ _).1 hc))
+
+/-- the kinds of refusal are the documented ones -/
+theorem refusal_kind (fields : List String) (mds : List Md) (e : Err)
+    (h : processMd fields mds [] = .error e) : e = .badItem ∨ ∃ n, e = .conflict n := by
+  cases e with
+  | badItem => exact Or.inl rfl
+  | conflict n => exact Or.inr ⟨n, rfl⟩
+
+/-- **C14.effective_once** — the blocks that count are pairwise different, keep the order in which
+they were sent, and every block sent is among them; without a conflict their names are pairwise
+different too. -/
+theorem effective_once (fields : List String) (mds : List Md) :
+    (effective fields mds).Nodup ∧ (effective fields mds).Sublist (blocksOf fields mds) ∧
+    (∀ b, b ∈ effective fields mds ↔ b ∈ blocksOf fields mds) ∧
+    (¬ Conflict fields mds → ((effective fields mds).map (·.name)).Nodup) := by
+  refine ⟨firstOccAux_nodup _ _, firstOccAux_sublist _ _, fun b => mem_firstOcc b _, ?_⟩
+  intro hc
+  have hnd : (effective fields mds).Nodup := firstOccAux_nodup _ _
+  apply nodup_map_of_injOn _ _ hnd
+  intro b₁ h₁ b₂ h₂ hn
+  by_cases hne : b₁ = b₂
+  · exact hne
+  · exact absurd ⟨b₁, (mem_firstOcc _ _).1 h₁, b₂, (mem_firstOcc _ _).1 h₂, hn, hne⟩ hc
+
+/-- **C14.fetch_order** — `_ib_fetch` concatenates in block order, then in line order: the lines
+of a block stay together, in their order, after those of earlier and before those of later blocks. -/
+theorem fetch_order (A : List Block) (b : Block) (B : List Block) (f : String) :
+    fetch (A ++ b :: B) f = fetch A f ++ b.get f ++ fetch B f := by
+  simp [fetch, List.append_assoc]
+
+/-! ## 4. One run of the package generator -/
+
+def outcomeOf : Except Err (List (String × Str)) → Outcome
+  | .error _ => .refused
+  | .ok out => .files out
+
+theorem specFileAt_congr (d : FileDoc) (i₁ i₂ : Info) (h : ∀ k, i₁.getList k = i₂.getList k)
+    (wit : List (String × Layout)) (out : List (String × Str)) (hs : SpecFileAt d i₁ wit out) :
+    SpecFileAt d i₂ wit out := by
+  unfold SpecFileAt at hs ⊢
+  split at hs
+  · rename_i L f hL hf
+    have hp : present i₁ = present i₂ := by funext k; simp [present, h]
+    obtain ⟨h1, h2⟩ := hs
+    exact ⟨by rw [h1, renderLayout_congr i₁ i₂ L h], by rw [← hp]; exact h2⟩
+  · exact hs.elim
+
+/-- **C14.package** (generic) — for templates passing `docsOk`: whatever metadata is sent, the run
+is refused exactly when the metadata is bad, and otherwise every documented file carries the lines
+of the effective blocks (after the query's own lines) once, in block-then-line order, verbatim, at
+the documented places. -/
+theorem package (fields : List String) (files : List (String × Template)) (docs : List FileDoc)
+    (h : docsOk files docs = true) (mds : List Md) (base : Base) :
+    SpecOutcome fields docs (witOf files) mds base (outcomeOf (runPackage fields files mds base)) := by
+  unfold runPackage
+  cases hp : processMd fields mds [] with
+  | error e =>
+    simp only [outcomeOf, SpecOutcome]
+    exact (refused_iff_bad fields mds).1 ⟨e, hp⟩
+  | ok bs =>
+    obtain ⟨rfl, hnb⟩ := dedup_conflict fields mds bs hp
+    simp only [outcomeOf, SpecOutcome]
+    refine ⟨hnb, fun d hd => ?_⟩
+    exact specFileAt_congr d _ _ (mkInfo_getList base _) _ _
+      (render_shape files docs h (mkInfo base (effective fields mds)) d hd)
+
+/-- **C14.package_atlas** — the ATLAS package generator, with the templates and the dataclass
+fields as they are in the repository now. -/
+theorem package_atlas (mds : List Md) (base : Base) :
+    SpecOutcome injectFields atlasDocs (witOf atlasFiles) mds base
+      (outcomeOf (runPackage injectFields atlasFiles mds base)) :=
+  package injectFields atlasFiles atlasDocs atlas_docs_ok mds base
+
+/-- **C14.package_cms_aod** — on CMS AOD the body includes are honoured. -/
+theorem package_cms_aod (mds : List Md) (base : Base) :
+    SpecOutcome injectFields cmsDocs (witOf cms_aodFiles) mds base
+      (outcomeOf (runPackage injectFields cms_aodFiles mds base)) :=
+  package injectFields cms_aodFiles cmsDocs cms_aod_docs_ok mds base
+
+/-- **C14.package_cms_miniaod** — on CMS miniAOD the body includes are honoured. -/
+theorem package_cms_miniaod (mds : List Md) (base : Base) :
+    SpecOutcome injectFields cmsDocs (witOf cms_miniaodFiles) mds base
+      (outcomeOf (runPackage injectFields cms_miniaodFiles mds base)) :=
+  package injectFields cms_miniaodFiles cmsDocs cms_miniaod_docs_ok mds base
+
+/-- **C14.injected_line_placed** — the property in one sentence, for ATLAS: if the package is
+generated, then for every inject_code field `f` (with its documented file and template variable),
+every effective block `b` (blocks before it `A`, after it `B`) and every line `l` of `b.f` (lines
+before it `a`, after it `c`): the file is `P ++ pre ++ l ++ post ++ Q`, where `P` ends with the
+decorated lines of the query, of the blocks `A` and of `a` — in that order — and `Q` starts with
+those of `c` and `B`; `pre`/`post` are the documented decorations and the slot sits in the
+documented region of the template's skeleton. -/
+theorem injected_line_placed (mds : List Md) (base : Base) (out : List (String × Str))
+    (h : runPackage injectFields atlasFiles mds base = .ok out)
+    (f file key : String) (hp : (f, file, key) ∈ atlasFieldPlace)
+    (A : List Block) (b : Block) (B : List Block) (hb : effective injectFields mds = A ++ b :: B)
+    (a : List Str) (l : Str) (c : List Str) (hl : b.get f = a ++ l :: c) :
+    ∃ text sd ctx P Q, lookup file out = some text ∧
+      (∃ d ∈ atlasDocs, d.file = file ∧ sd ∈ d.slots) ∧ sd.xs = key ∧ slotOk sd ctx = true ∧
+      text = (P ++ itemsText ctx.slot.pre ctx.slot.post
+                ((lookup key (baseLists base)).getD [] ++ fetch A f ++ a)) ++
+             (ctx.slot.pre ++ (l ++ ctx.slot.post)) ++
+             (itemsText ctx.slot.pre ctx.slot.post (c ++ fetch B f) ++ Q) := by
+  unfold runPackage at h
+  cases hpm : processMd injectFields mds [] with
+  | error e => simp [hpm] at h
+  | ok bs =>
+    obtain ⟨rfl, _⟩ := dedup_conflict injectFields mds bs hpm
+    simp only [hpm, Except.ok.injEq] at h
+    subst h
+    -- the documented slot of the field
+    have hdoc : ∃ d ∈ atlasDocs, d.file = file ∧ ∃ sd ∈ d.slots, sd.xs = key := by
+      have := fields_documented.2.2.1
+      rw [List.all_eq_true] at this
+      have := this (f, file, key) hp
+      simp only [Bool.and_eq_true, List.any_eq_true, beq_iff_eq] at this
+      obtain ⟨_, d, hd, hdf, sd, hsd, hx⟩ := this
+      exact ⟨d, hd, hdf, sd, hsd, hx⟩
+    obtain ⟨d, hd, hdf, sd, hsd, hx⟩ := hdoc
+    obtain ⟨t, L, ctx, SA, SB, st, ht, hL, hR, hok, _, _, _, hrender⟩ :=
+      region atlasFiles atlasDocs atlas_docs_ok d hd sd hsd
+    -- what the variable holds
+    have hkey : fieldKey.contains (f, key) = true := by
+      have := fields_documented.2.2.1
+      rw [List.all_eq_true] at this
+      have := this (f, file, key) hp
+      simp only [Bool.and_eq_true] at this
+      exact this.1
+    have hlist : (mkInfo base (effective injectFields mds)).getList key =
+        (lookup key (baseLists base)).getD [] ++ fetch A f ++ a ++ l :: (c ++ fetch B f) := by
+      rw [mkInfo_getList, expectedInfo_getList]
+      have hmem : (f, key) ∈ fieldKey := by simpa using hkey
+      have hk : key ∈ infoKeys := by
+        simp only [fieldKey, List.mem_cons, Prod.mk.injEq, List.not_mem_nil, or_false] at hmem
+        rcases hmem with ⟨_, rfl⟩ | ⟨_, rfl⟩ | ⟨_, rfl⟩ | ⟨_, rfl⟩ | ⟨_, rfl⟩ | ⟨_, rfl⟩ | ⟨_, rfl⟩ <;> decide
+      have hfilter : (fieldKey.filter fun fk => fk.2 = key) = [(f, key)] := by
+        simp only [fieldKey, List.mem_cons, Prod.mk.injEq, List.not_mem_nil, or_false] at hmem
+        rcases hmem with ⟨rfl, rfl⟩ | ⟨rfl, rfl⟩ | ⟨rfl, rfl⟩ | ⟨rfl, rfl⟩ | ⟨rfl, rfl⟩ | ⟨rfl, rfl⟩ | ⟨rfl, rfl⟩ <;> decide
+      simp only [hk, if_true, expectedList, hfilter, List.flatMap_cons, List.flatMap_nil, List.append_nil]
+      rw [hb]
+      have := fetch_order A b B f
+      simp only [fetch] at this
+      rw [this, hl]
+      simp [fetch, List.append_assoc]
+    refine ⟨render t (mkInfo base (effective injectFields mds)), sd, ctx, L.head ++ renderRest (mkInfo base (effective injectFields mds)) SA,
+      st ++ renderRest (mkInfo base (effective injectFields mds)) SB, ?_, ⟨d, hd, hdf, hsd⟩, hx, hok, ?_⟩
+    · rw [lookup_renderFiles, ← hdf, ht]; rfl
+    · rw [hrender, hx, hlist, itemsText_split]
+      simp [List.append_assoc]
+
+/-- **C14.cms_body_includes_placed** — the CMS counterpart for `body_includes` (both releases). -/
+theorem cms_only_body_includes :
+    ((cms_aodFiles ++ cms_miniaodFiles).all fun nt =>
+      match flatten nt.2 with
+      | none => false
+      | some L => L.rest.all fun p => ["body_include_files", "class_decl", "book_code", "query_code"].contains p.1.xs) = true := by
+  decide +kernel
+
+/-! ## 5. Non-vacuity: the hypotheses are met and the definitions compute what they should -/
+
+section examples
+
+private def s (x : String) : Str := x.toList
+
+private def toy : Template :=
+  [.text (s "A\n"), .forIn "i" "inc" [.text (s "#include \""), .var "i", .text (s "\"\n")], .text (s "B")]
+
+example : flatten toy = some ⟨s "A\n", [(⟨"inc", s "#include \"", s "\"\n"⟩, s "B")]⟩ := by decide
+
+/-- template syntax inside a substituted value is copied, not interpreted -/
+example : render toy { lists := [("inc", [s "{{x}}", s "{% raw %}"])] } =
+    s "A\n#include \"{{x}}\"\n#include \"{% raw %}\"\nB" := by decide
+
+private def md (n : String) (fs : List (String × List Str)) : Md := .inject ⟨some (s n), fs⟩
+
+/-- identical repeat counts once; order of first occurrence -/
+example : ((processMd ["a", "b"] [md "x" [("a", [s "1"])], md "y" [], md "x" [("a", [s "1"]), ("b", [])]] []).toOption.map
+    (·.map (·.name))) = some [s "x", s "y"] := by decide
+/-- same name, different content -/
+example : (processMd ["a"] [md "x" [("a", [s "1"])], md "x" [("a", [s "2"])]] []).toOption = none := by decide
+example : Conflict ["a"] [md "x" [("a", [s "1"])], md "x" [("a", [s "2"])]] := by decide
+/-- unknown field -/
+example : (processMd ["a"] [md "x" [("zz", [])]] []).toOption = none := by decide
+example : Malformed ["a"] [md "x" [("zz", [])]] := by decide
+/-- a good list is not bad -/
+example : ¬ Bad ["a", "b"] [md "x" [("a", [s "1"])], .other (s "x"), md "x" [("a", [s "1"])]] := by decide
+
+end examples
+
+end FaxVerif.C14
